@@ -103,6 +103,7 @@ func (ctx Ctx) coqTypeOfType(n ast.Node, t types.Type) coq.Type {
 		if t.Obj().Pkg().Name() == "disk" && t.Obj().Name() == "Disk" {
 			return coq.TypeIdent("disk.Disk")
 		}
+		ctx.checkNotSyncValue(n, t)
 		// the emitted type mentions the definition of the named type
 		if t.Obj().Pkg().Path() == ctx.pkgPath {
 			ctx.dep.addDep(t.Obj().Name())
@@ -124,6 +125,17 @@ func (ctx Ctx) coqTypeOfType(n ast.Node, t types.Type) coq.Type {
 	}
 	ctx.nope(n, "unknown type %v", t)
 	return nil // unreachable
+}
+
+// checkNotSyncValue rejects a value (rather than a pointer) of a type of
+// package sync: only *sync.Mutex, *sync.Cond and *sync.WaitGroup have a
+// GooseLang model, and there is no Coq module sync for anything else to refer to
+func (ctx Ctx) checkNotSyncValue(n ast.Node, t types.Type) {
+	if named, ok := t.(*types.Named); ok && named.Obj().Pkg() != nil &&
+		named.Obj().Pkg().Path() == "sync" {
+		ctx.unsupported(n, "sync.%s used other than through a pointer to a "+
+			"Mutex, Cond or WaitGroup", named.Obj().Name())
+	}
 }
 
 func sliceElem(t types.Type) types.Type {
